@@ -93,6 +93,10 @@ def local_defs(func):
             add(n.target, n.iter, 'for', n)
         elif isinstance(n, ast.NamedExpr):
             add(n.target, n.value, 'assign', n)
+        elif isinstance(n, ast.Call) and isinstance(n.func, ast.Attribute) and isinstance(n.func.value, ast.Name) and \
+                n.func.attr in ('append', 'extend', 'insert', 'add', 'update', 'appendleft') and n.args:
+            # content added to a local container flows into it
+            defs.setdefault(n.func.value.id, []).append((n.args[-1], 'mutate', n))
     return defs
 
 
